@@ -31,6 +31,14 @@ import (
 	"github.com/evolbioinfo/gotree/tree"
 )
 
+// the lines of a file as a line reader sees them (a final newline ends the last line, it does not start another)
+func fileLines(s string) []string {
+	if s == "" {
+		return nil
+	}
+	return strings.Split(strings.TrimSuffix(s, "\n"), "\n")
+}
+
 func lines(s string) []string {
 	if s == "" {
 		return nil
@@ -428,6 +436,94 @@ func siteCase(c *core.Ctx, name string, files map[string]string, params []string
 				impl = append(impl, fmt.Sprintf("%d %s %c %c %d %d", m.AlignmentSite, m.ChildNodeName, m.ParentCharacter, m.ChildCharacter, m.NumTips, m.NumTipsWithChildCharacter))
 			}
 			sort.Strings(impl)
+		case "readmap":
+			// cmd/root.go readMapFile, then Tree.Rename, through `gotree rename -m file [-r]`
+			t := parseTree(files["tree"])
+			for _, l := range fileLines(files["map"]) {
+				entries = append(entries, []string{l})
+			}
+			mode := "forward"
+			if len(params) > 0 && params[0] == "revert" {
+				mode = "revert"
+			}
+			params = []string{mode}
+			for _, n := range t.Nodes() {
+				if n.Tip() {
+					params = append(params, "T:"+n.Name())
+				} else {
+					params = append(params, "I:"+n.Name())
+				}
+			}
+			args := []string{"rename", "-i", "@in:tree", "-m", "@in:map"}
+			if mode == "revert" {
+				args = append(args, "-r")
+			}
+			so, _, exit := cliOnce(c, files, nil, args...)
+			if exit != 0 {
+				impl = []string{"err"}
+			} else {
+				impl = []string{"ok"}
+				for _, n := range parseTree(strings.TrimSpace(so)).Nodes() {
+					impl = append(impl, n.Name())
+				}
+			}
+		case "tipstates":
+			// cmd/acr.go parseTipStates through `gotree acr --algo none`: the state written on every tip of the output tree
+			t := parseTree(files["tree"])
+			params = t.AllTipNames()
+			for _, l := range fileLines(files["states"]) {
+				entries = append(entries, []string{l})
+			}
+			_, outs, exit := cliOnce(c, files, []string{"tree"}, "acr", "-i", "@in:tree", "--states", "@in:states", "--algo", "none", "--out-states", "@out:states", "-o", "@out:tree", "--out-steps", "@out:steps")
+			if exit != 0 {
+				impl = []string{"err"}
+			} else {
+				// the state acr wrote on each tip (its last comment: acr appends after the comments of the input)
+				for _, tip := range parseTree(strings.TrimSpace(outs["tree"])).SortedTips() {
+					st := "NOCOMMENT"
+					if cm := tip.Comments(); len(cm) > 0 {
+						st = cm[len(cm)-1]
+					}
+					impl = append(impl, tip.Name()+","+st+"\n")
+				}
+			}
+		case "renameauto":
+			// cmd/rename.go --auto [--internal] [--tips=false] -l L -m map: names written per tree, then the map file
+			which, L := params[0], params[1]
+			joined := func(newick string) string {
+				var nms []string
+				for _, n := range parseTree(newick).Nodes() {
+					nms = append(nms, n.Name())
+				}
+				return strings.Join(nms, "|")
+			}
+			for i, l := range strings.Split(strings.TrimSpace(files["tree"]), "\n") {
+				e := []string{fmt.Sprint(i)}
+				for _, n := range parseTree(l).Nodes() {
+					if n.Tip() {
+						e = append(e, "T:"+n.Name())
+					} else {
+						e = append(e, "I:"+n.Name())
+					}
+				}
+				entries = append(entries, e)
+			}
+			args := []string{"rename", "-i", "@in:tree", "-a", "-l", L, "-m", "@out:map", "-o", "@out:tree"}
+			if which == "internal" || which == "both" {
+				args = append(args, "--internal")
+			}
+			if which == "internal" {
+				args = append(args, "--tips=false")
+			}
+			_, outs, exit := cliOnce(c, files, []string{"map", "tree"}, args...)
+			for _, l := range fileLines(outs["tree"]) {
+				impl = append(impl, joined(l))
+			}
+			if exit != 0 {
+				impl = append(impl, "--failed--")
+			} else {
+				impl = append(append(impl, "--map--"), lines(outs["map"])...)
+			}
 		default:
 			panic("unknown site case " + name)
 		}
@@ -481,7 +577,7 @@ func siteCases(c *core.Ctx, in *inputs) {
 	siteCase(c, "rename", map[string]string{"tree": in.tree, "map": in.mapfile + "absent\tzzz\n"}, nil)
 	siteCase(c, "rename", map[string]string{"tree": in.named, "map": in.mapfile + "I1\tinner1\nI2\tinner2\n"}, nil)
 	siteCase(c, "rename", map[string]string{"tree": in.tree, "map": in.chainmap}, nil)
-	siteCase(c, "rename", map[string]string{"tree": dupTip(in.tree), "map": in.mapfile}, nil)                                   // two nodes with one name: NewNodeIndex refuses
+	siteCase(c, "rename", map[string]string{"tree": dupTip(in.tree), "map": in.mapfile}, nil)                                // two nodes with one name: NewNodeIndex refuses
 	siteCase(c, "rename", map[string]string{"tree": in.tree, "map": in.tips[0] + "\tsame\n" + in.tips[1] + "\tsame\n"}, nil) // two tips get one name: UpdateTipIndex refuses
 	siteCase(c, "asrtip", map[string]string{"tree": in.tree, "align": in.protein}, nil)
 	siteCase(c, "acralphabet", map[string]string{"states": in.states}, nil)
@@ -507,6 +603,28 @@ func siteCases(c *core.Ctx, in *inputs) {
 	}
 	siteCase(c, "asrtip", map[string]string{"tree": in.rooted, "align": in.nucl}, nil)
 	if c.Gotree != "" {
+		// the readers: repeated keys (the last line wins), --revert on non-injective and chained maps, a malformed line
+		// somewhere in the file, two tips renamed alike
+		ml := fileLines(in.mapfile)
+		rep2 := in.mapfile + fmt.Sprintf("%s\tagain_%d\n%s\tagain2\n", in.tips[c.G.Intn(len(in.tips))], c.G.Intn(100), in.tips[0])
+		k := c.G.Intn(len(ml))
+		bad := strings.Join(ml[:k], "\n") + "\n" + []string{"no_tab_here", "a\tb\tc", ""}[c.G.Intn(3)] + "\n" + strings.Join(ml[k:], "\n") + "\n"
+		siteCase(c, "readmap", map[string]string{"tree": in.tree, "map": rep2}, []string{"forward"})
+		siteCase(c, "readmap", map[string]string{"tree": in.tree, "map": in.dupmap}, []string{"revert"})
+		siteCase(c, "readmap", map[string]string{"tree": in.tree, "map": in.chainmap}, []string{"revert"})
+		siteCase(c, "readmap", map[string]string{"tree": in.named, "map": in.mapfile + "I1\tinner1\nI1\tinner1b\n"}, []string{"forward"})
+		siteCase(c, "readmap", map[string]string{"tree": in.tree, "map": bad}, []string{[]string{"forward", "revert"}[c.G.Intn(2)]})
+		siteCase(c, "readmap", map[string]string{"tree": in.tree, "map": in.mapfile + in.tips[1] + "\tnew_" + in.tips[0] + "\n"}, []string{"forward"})
+		sl := fileLines(in.states)
+		commas := strings.ReplaceAll(strings.Join(sl[:len(sl)/2], "\n"), "\t", ",") + "\n" + strings.Join(sl[len(sl)/2:], "\n") + "\n"
+		siteCase(c, "tipstates", map[string]string{"tree": in.tree, "states": in.states}, nil)
+		siteCase(c, "tipstates", map[string]string{"tree": in.tree, "states": commas + in.tips[2] + ",ZZ\n" + in.tips[2] + "\tE\n"}, nil)
+		siteCase(c, "tipstates", map[string]string{"tree": in.tree, "states": in.states + in.tips[0] + "\tA,B\n"}, nil)
+		siteCase(c, "tipstates", map[string]string{"tree": in.tree, "states": strings.Join(sl[1:], "\n") + "\n"}, nil) // a tip without a state
+		siteCase(c, "renameauto", map[string]string{"tree": in.multi}, []string{"tips", "3"})                          // -l below 5 is raised to 5
+		siteCase(c, "renameauto", map[string]string{"tree": in.multi}, []string{"both", []string{"6", "7", "10"}[c.G.Intn(3)]})
+		siteCase(c, "renameauto", map[string]string{"tree": in.named + "\n" + in.rooted + "\n" + in.tree + "\n"}, []string{"internal", "5"})
+		siteCase(c, "renameauto", map[string]string{"tree": in.tree + "\n" + dupTip(in.tree) + "\n" + in.rooted + "\n"}, []string{"tips", "8"}) // the second tree fails
 		siteCase(c, "acrstates", map[string]string{"tree": in.tree, "states": in.states}, []string{algo})
 		siteCase(c, "namemap", map[string]string{"tree": in.multi}, nil)
 		siteCase(c, "comparetips", map[string]string{"tree": in.tree, "tips": in.tiplist}, nil)
